@@ -2,6 +2,7 @@ package checks
 
 import (
 	"crypto/ecdsa"
+	"crypto/ed25519"
 	"crypto/elliptic"
 	"fmt"
 	"math/big"
@@ -446,6 +447,55 @@ func runC15(c *Ctx) {
 		}
 		if name != "generic-CurveParams-256" && name != "generic-384" && name != "generic-521" && (e1 == nil || e2 == nil) {
 			rec.Violate("unsupported-curve-accepted", name, fmt.Sprintf("NewKeyFromPublic/NewKeyFromPrivate accepted a key on %s (errors: %v, %v)", name, e1, e2), in)
+		}
+	}
+	// a key whose private part does not belong to its public part (two keys mixed up): the verifier it
+	// yields follows the PUBLIC coordinates, the signer the private scalar - never the other way round
+	{
+		otherEd := gen.EdKey(r.Sub(977))
+		otherEC := gen.ECKey(elliptic.P256(), r.Sub(978))
+		a := mat.full[0]
+		type mixed struct {
+			name      string
+			wire      *Node
+			pubSign   func(msg []byte) []byte // a signature valid under the public coordinates
+			otherSign func(msg []byte) []byte // a signature valid under the key that d belongs to
+		}
+		mx := []mixed{
+			{"okp", gen.KeyMap([]gen.KeyEntry{{Label: refcbor.NInt(1), Value: refcbor.NInt(1)}, {Label: refcbor.NInt(-1), Value: refcbor.NInt(6)}, {Label: refcbor.NInt(-2), Value: refcbor.NBstr(mat.edX)}, {Label: refcbor.NInt(-4), Value: refcbor.NBstr(otherEd.Seed())}}),
+				func(msg []byte) []byte { return ed25519.Sign(ed25519.NewKeyFromSeed(mat.edD), msg) }, func(msg []byte) []byte { return ed25519.Sign(otherEd, msg) }},
+			{"ec2", gen.KeyMap([]gen.KeyEntry{{Label: refcbor.NInt(1), Value: refcbor.NInt(2)}, {Label: refcbor.NInt(-1), Value: refcbor.NInt(1)}, {Label: refcbor.NInt(-2), Value: refcbor.NBstr(a.X.FillBytes(make([]byte, 32)))}, {Label: refcbor.NInt(-3), Value: refcbor.NBstr(a.Y.FillBytes(make([]byte, 32)))}, {Label: refcbor.NInt(-4), Value: refcbor.NBstr(otherEC.D.FillBytes(make([]byte, 32)))}}),
+				func(msg []byte) []byte {
+					sg, _ := refcrypto.Sign(gen.Entropy, -7, a, msg)
+					return sg
+				}, func(msg []byte) []byte {
+					sg, _ := refcrypto.Sign(gen.Entropy, -7, otherEC, msg)
+					return sg
+				}},
+		}
+		for _, m := range mx {
+			b := refcbor.Encode(m.wire)
+			in := map[string]any{"cell": "mixed-up-key/" + m.name, "key": hexs(b)}
+			var k cose.Key
+			if k.UnmarshalCBOR(b) != nil {
+				rec.Event("mixed-up-key:refused")
+				continue
+			}
+			var v cose.Verifier
+			var err error
+			if guard(rec, "Key.Verifier", in, func() { v, err = k.Verifier() }) || err != nil {
+				continue
+			}
+			msg := []byte("mixed up")
+			rec.Eval(1)
+			rec.Event("mixed-up-key-cases")
+			rec.Class("mixed-up-key/" + m.name)
+			if e := v.Verify(msg, m.pubSign(msg)); e != nil {
+				rec.Violate("gate", "mixed-up-key/"+m.name+"/public-refused", "the verifier of a key refuses a signature that is valid under the key's public coordinates: "+e.Error(), in)
+			}
+			if e := v.Verify(msg, m.otherSign(msg)); e == nil {
+				rec.Violate("gate", "mixed-up-key/"+m.name+"/follows-d", "the verifier of a key accepts a signature made with the key pair its d belongs to, not the one its public coordinates name", in)
+			}
 		}
 	}
 	// coordinates that are not reduced field elements (v + p, still within the coordinate size): such a
